@@ -309,9 +309,12 @@ func execPlan(t *testing.T, plan *Plan, known []string) *World {
 		panic("plan for unknown property " + plan.Prop)
 	}
 	var w *World
-	if p.Exec != nil {
+	switch {
+	case plan.Meta["lane"] == "race":
+		w = execRace(t, plan, p.Oracle())
+	case p.Exec != nil:
 		w = p.Exec(t, plan)
-	} else {
+	default:
 		w = Exec(t, plan, p.Oracle())
 	}
 	if plan.Meta["lane"] == "P" && p.LaneP != nil && len(w.Viol) == 0 && w.Harness == "" {
